@@ -56,6 +56,8 @@ def cases(tier, seed):
 
 
 def worker_setup(ctx):
+    from vf import neutral
+    neutral.enable(ctx)      # neutral prefixes after conversion in half of the cases
     from plinio.methods.mps.nn.qtz import MPSBaseQtz
     from plinio.methods.supernet.nn.combiner import SuperNetCombiner
 
